@@ -3,7 +3,7 @@
    CompressionMode.opts) is what the hand-written model computes.  A change of a boundary, a comparison or a constant in
    one of those places of the source changes Gen/FrameCode.v and breaks a proof here. *)
 From Coq Require Import List NArith ZArith Bool Lia.
-From WS Require Import Base.Words Gen.Consts Gen.FrameCode Gen.ReadCode Model.Mask Model.Frame Model.Proto Model.Handshake Model.Reader Model.NetConn Proofs.ReaderP.
+From WS Require Import Base.Words Gen.Consts Gen.FrameCode Gen.ReadCode Gen.AcceptCode Model.Base64 Model.Mask Model.Frame Model.Proto Model.Handshake Model.Reader Model.NetConn Proofs.ReaderP.
 Import ListNotations.
 
 Local Open Scope N_scope.
@@ -160,4 +160,37 @@ Theorem netconn_eof_read_is_source : forall f typ r n code closed,
 Proof.
   intros f typ r n code closed. cbn [nc_read nc_eofed nc_cur nc_in]. rewrite netconn_eof_is_source.
   destruct (gen_netconn_eof code); reflexivity.
+Qed.
+
+
+(* ---------------- Gen/AcceptCode.v: the order of the checks of verifyClientRequest and the status of each ---------------- *)
+
+Definition req_key_decodes (r : hreq) : bool :=
+  match hs_values (q_hdrs r) s_SecKey with k :: _ => match b64_decode (hs_trim k) with Some _ => true | None => false end | [] => false end.
+Definition req_key_len (r : hreq) : Z :=
+  match hs_values (q_hdrs r) s_SecKey with k :: _ => match b64_decode (hs_trim k) with Some d => Z.of_nat (length d) | None => 0%Z end | [] => 0%Z end.
+
+(* the model's verify_client_request answers what the source's chain of checks answers, check by check, status by status *)
+Theorem verify_client_request_is_source : forall r,
+  Z.of_nat (verify_client_request r) =
+  gen_verify_request (Nat.ltb 1 (q_major r) || (Nat.eqb (q_major r) 1 && Nat.leb 1 (q_minor r)))
+    (hs_has_token (q_hdrs r) s_Connection s_Upgrade) (hs_has_token (q_hdrs r) s_Upgrade s_websocket)
+    (hs_beq (q_method r) s_GET) (hs_beq (hs_get (q_hdrs r) s_SecVersion) s_13)
+    (Z.of_nat (length (hs_values (q_hdrs r) s_SecKey))) (req_key_decodes r) (req_key_len r).
+Proof.
+  intro r. unfold verify_client_request, gen_verify_request, req_key_decodes, req_key_len.
+  destruct (Nat.ltb 1 (q_major r) || (Nat.eqb (q_major r) 1 && Nat.leb 1 (q_minor r))); cbn [negb]; [|reflexivity].
+  destruct (hs_has_token (q_hdrs r) s_Connection s_Upgrade); cbn [negb]; [|reflexivity].
+  destruct (hs_has_token (q_hdrs r) s_Upgrade s_websocket); cbn [negb]; [|reflexivity].
+  destruct (hs_beq (q_method r) s_GET); cbn [negb]; [|reflexivity].
+  destruct (hs_beq (hs_get (q_hdrs r) s_SecVersion) s_13); cbn [negb]; [|reflexivity].
+  destruct (hs_values (q_hdrs r) s_SecKey) as [|k [|k2 l]]; cbn [length].
+  - reflexivity.
+  - change (Z.eqb (Z.of_nat 1) 0) with false. change (Z.ltb 1 (Z.of_nat 1)) with false. cbv iota.
+    destruct (b64_decode (hs_trim k)) as [d|]; cbn [negb orb]; [|reflexivity].
+    destruct (Nat.eqb_spec (length d) 16) as [E|E].
+    + rewrite E. reflexivity.
+    + destruct (Z.eqb_spec (Z.of_nat (length d)) 16) as [E'|E']; [lia|]. reflexivity.
+  - destruct (Z.eqb_spec (Z.of_nat (S (S (length l)))) 0) as [E|E]; [lia|].
+    destruct (Z.ltb_spec 1 (Z.of_nat (S (S (length l))))) as [E'|E']; [reflexivity|lia].
 Qed.
